@@ -117,3 +117,24 @@ benign('C01', 'r2c via np.dot', BOX, 'return relpos.dot(self.vects) + self.origi
 benign('C01', 'c2r via explicit inverse', BOX, 'return np.inner((value - self.origin), self.reciprocal_vects)', 'return np.dot(value - self.origin, np.linalg.inv(self.vects))')
 benign('C01', 'below via tensordot-free form', PLANE, 'normpos = np.inner(self.normal, pos)', 'normpos = np.dot(pos, self.normal)')
 benign('C01', 'planes with negated swapped cross', BOX, 'Plane(np.cross(self.cvect, self.bvect), self.origin),', 'Plane(-np.cross(self.bvect, self.cvect), self.origin),')
+
+# ------------------------------------------------------------------ C02
+DV = 'atomman/core/dvect.pyx'
+DM = 'atomman/core/dmag.pyx'
+DISP = 'atomman/core/displacement.py'
+mutant('C02', 'dvect image range misses +1', DV, "    if pbc_x:\n        xl, xh = -1, 2", "    if pbc_x:\n        xl, xh = -1, 1", 'MINFOLD')
+mutant('C02', 'dvect z image uses transposed vector', DV, 'z * bvects[2,j]', 'z * bvects[j,2]', 'MINFOLD')
+mutant('C02', 'dvect pbc_y guards z range', DV, "    if pbc_z:\n        zl, zh = -1, 2", "    if pbc_y:\n        zl, zh = -1, 2", 'MINFOLD')
+mutant('C02', 'dvect keeps the longer candidate', DV, 'if mag_test < mag_d:', 'if mag_test > mag_d:', 'MINFOLD')
+mutant('C02', 'dvect update copies two components', DV, "                        for j in range(nj):\n                            dv[i,j] = test[j]", "                        for j in range(2):\n                            dv[i,j] = test[j]", 'MINFOLD')
+mutant('C02', 'dmag2 magnitude drops z term', DM, 'mag2_test = d[0] * d[0] + d[1] * d[1] + d[2] * d[2]', 'mag2_test = d[0] * d[0] + d[1] * d[1]', 'MINFOLD')
+mutant('C02', 'dmag2 y image along wrong vector', DM, 'y * bvects[1,j]', 'y * bvects[0,j]', 'MINFOLD')
+mutant('C02', 'dmag wrapper swaps flags', DM, 'pbc[0], pbc[1], pbc[2])**0.5', 'pbc[1], pbc[0], pbc[2])**0.5', 'WRAPPER')
+mutant('C02', 'dmag returns squared distance', DM, 'pbc[0], pbc[1], pbc[2])**0.5', 'pbc[0], pbc[1], pbc[2])', 'WRAPPER')
+mutant('C02', 'dvect unequal lengths no longer refused', DV, "    elif len(pos_0) != len(pos_1):\n        raise ValueError('Incompatible pos lengths')", "", 'WRAPPER')
+mutant('C02', 'displacement initial mixes pbc', DISP, 'system_0.box, system_0.pbc)', 'system_0.box, system_1.pbc)', 'PAIRING')
+mutant('C02', 'displacement reversed', DISP, "disp = dvect(system_0.atoms.pos, system_1.atoms.pos, system_1.box, system_1.pbc)", "disp = dvect(system_1.atoms.pos, system_0.atoms.pos, system_1.box, system_1.pbc)", 'PAIRING')
+mutant('C02', 'System.dmag ignores pbc', 'atomman/core/System.py', 'vects = dmag(pos_0, pos_1, self.box, self.pbc)', 'vects = dmag(pos_0, pos_1, self.box, (True, True, True))', 'PAIRING')
+benign('C02', 'dvect candidate terms reordered', DV, "                                   + x * bvects[0,j] \n                                   + y * bvects[1,j] \n                                   + z * bvects[2,j])", "                                   + z * bvects[2,j] \n                                   + x * bvects[0,j] \n                                   + y * bvects[1,j])")
+benign('C02', 'dvect comparison flipped', DV, 'if mag_test < mag_d:', 'if mag_d > mag_test:')
+benign('C02', 'dmag2 squares via power', DM, 'mag2_test = d[0] * d[0] + d[1] * d[1] + d[2] * d[2]', 'mag2_test = d[0]**2 + d[1]**2 + d[2]**2')
